@@ -37,8 +37,8 @@ func world(name string, maturity int64) *harness.World {
 
 func worlds() []*worldDef {
 	return []*worldDef{
-		{Name: "m1", What: "maturity time 1 block", Build: func() *harness.World { return world("m1", 1) }, Depth: map[string]int{"quick": 4, "thorough": 5}},
-		{Name: "m2", What: "maturity time 2 blocks", Build: func() *harness.World { return world("m2", 2) }, Depth: map[string]int{"quick": 4, "thorough": 5}},
+		{Name: "m1", What: "maturity time 1 block", Build: func() *harness.World { return world("m1", 1) }, Depth: map[string]int{"quick": 4, "thorough": 6}},
+		{Name: "m2", What: "maturity time 2 blocks", Build: func() *harness.World { return world("m2", 2) }, Depth: map[string]int{"quick": 4, "thorough": 6}},
 	}
 }
 
